@@ -5923,7 +5923,14 @@ static hawk_val_t* eval_binop_div (hawk_rtx_t* rtx, hawk_val_t* left, hawk_val_t
 				return HAWK_NULL;
 			}
 
-			if (((hawk_int_t)l1 % (hawk_int_t)l2) == 0)
+			if (l1 == HAWK_TYPE_MIN(hawk_int_t) && l2 == -1)
+			{
+				/* the quotient is not representable as an integer and
+				 * the machine division traps. produce a floating-point number */
+				res = hawk_rtx_makefltval (
+					rtx, (hawk_flt_t)l1 / (hawk_flt_t)l2);
+			}
+			else if (((hawk_int_t)l1 % (hawk_int_t)l2) == 0)
 			{
 				res = hawk_rtx_makeintval (
 					rtx, (hawk_int_t)l1 / (hawk_int_t)l2);
@@ -5979,8 +5986,18 @@ static hawk_val_t* eval_binop_idiv (hawk_rtx_t* rtx, hawk_val_t* left, hawk_val_
 				hawk_rtx_seterrnum (rtx, HAWK_NULL, HAWK_EDIVBY0);
 				return HAWK_NULL;
 			}
-			res = hawk_rtx_makeintval (
-				rtx, (hawk_int_t)l1 / (hawk_int_t)l2);
+			if (l2 == -1)
+			{
+				/* the machine division traps if the smallest integer is divided by -1.
+				 * negate in unsigned arithmetic which wraps around like other integer operations */
+				res = hawk_rtx_makeintval (
+					rtx, (hawk_int_t)((hawk_uint_t)0 - (hawk_uint_t)l1));
+			}
+			else
+			{
+				res = hawk_rtx_makeintval (
+					rtx, (hawk_int_t)l1 / (hawk_int_t)l2);
+			}
 			break;
 
 		case 1:
@@ -6030,7 +6047,9 @@ static hawk_val_t* eval_binop_mod (hawk_rtx_t* rtx, hawk_val_t* left, hawk_val_t
 				hawk_rtx_seterrnum (rtx, HAWK_NULL, HAWK_EDIVBY0);
 				return HAWK_NULL;
 			}
-			res = hawk_rtx_makeintval(rtx, (hawk_int_t)l1 % (hawk_int_t)l2);
+			/* the remainder of the division by -1 is always 0. the machine
+			 * operation traps if the dividend is the smallest integer */
+			res = hawk_rtx_makeintval(rtx, ((l2 == -1)? 0: ((hawk_int_t)l1 % (hawk_int_t)l2)));
 			break;
 
 		case 1:
